@@ -470,11 +470,22 @@ func ruleProbes(r *Run, p string, k *vecKind) {
 	})
 	r.Check(okRank, p+".ORD.probe", k.Name+":ranking", site, "ranked[i] = {index: i, distance: Calculate(preprocessed query, centroids[i])} for every centroid", "centroid ranking entries are not {i, distance(query, centroid i)}")
 	// effective probes table
-	ph, ok := bound.(*ssa.Phi)
-	if !ok {
+	// the bound is a clamped value: a phi of (p, nlist), possibly passed through the min / max builtins
+	boundIn, ok := bound.(ssa.Instruction)
+	isClamp := false
+	switch x := bound.(type) {
+	case *ssa.Phi:
+		isClamp = true
+	case *ssa.Call:
+		if b, isB := x.Call.Value.(*ssa.Builtin); isB && (b.Name() == "min" || b.Name() == "max") {
+			isClamp = true
+		}
+	}
+	if !ok || !isClamp {
 		r.Und(p+".ORD.probe", k.Name+":table", site, "probe bound is not a clamped value")
 		return
 	}
+	stopBlock := boundIn.Block()
 	npField := builderField(w, k.SearchT, "WithNProbes")
 	syms := []string{"p", "0", "nlist"}
 	var bad []string
@@ -543,7 +554,44 @@ func ruleProbes(r *Run, p string, k *vecKind) {
 			bad = append(bad, "the requested probe count is never compared")
 			break
 		}
-		paths, _ := enumPaths(start, walkCfg{Decide: decide, Stop: func(b *ssa.BasicBlock) bool { return b == ph.Block() }, MaxVisits: 1, MaxPaths: 50})
+		paths, _ := enumPaths(start, walkCfg{Decide: decide, Stop: func(b *ssa.BasicBlock) bool { return b == stopBlock }, MaxVisits: 1, MaxPaths: 50})
+		if start == stopBlock {
+			// straight-line clamp (only builtins): the single empty path
+			paths = []*Path{{Blocks: []*ssa.BasicBlock{start}, End: EndStop}}
+		}
+		// symbolic value of the bound on a path: phis resolved along it, min / max decided by the order in force
+		var evalSym func(v ssa.Value, pth *Path, depth int) []string
+		evalSym = func(v ssa.Value, pth *Path, depth int) []string {
+			v = resolveOnPath(pth, v)
+			if sy := symOf(v); sy != "" || depth > 4 {
+				return []string{sy}
+			}
+			if call, ok := v.(*ssa.Call); ok {
+				if b, isB := call.Call.Value.(*ssa.Builtin); isB && (b.Name() == "min" || b.Name() == "max") && len(call.Call.Args) == 2 {
+					as, bs := evalSym(call.Call.Args[0], pth, depth+1), evalSym(call.Call.Args[1], pth, depth+1)
+					var out []string
+					for _, a := range as {
+						for _, bb := range bs {
+							if a == "" || bb == "" {
+								out = append(out, "")
+								continue
+							}
+							ra, rb := rank[a], rank[bb]
+							switch {
+							case ra == rb:
+								out = append(out, a, bb)
+							case (ra < rb) == (b.Name() == "min"):
+								out = append(out, a)
+							default:
+								out = append(out, bb)
+							}
+						}
+					}
+					return out
+				}
+			}
+			return []string{""}
+		}
 		want := "p"
 		if rank["p"] <= rank["0"] || rank["p"] > rank["nlist"] {
 			want = "nlist"
@@ -555,11 +603,18 @@ func ruleProbes(r *Run, p string, k *vecKind) {
 			if pth.End != EndStop {
 				continue
 			}
-			e := pth.PhiEdge(ph)
-			outs[symOf(e)] = true
+			for _, sy := range evalSym(bound, pth, 0) {
+				outs[sy] = true
+			}
 		}
 		got := strings.Join(sortedStrings(outs), "|")
-		if !(got == want || (strings.Contains(want, "|") && strings.Contains("|"+want+"|", "|"+got+"|"))) {
+		okRow := len(outs) > 0
+		for o := range outs {
+			if !wantAccepts(want, o) {
+				okRow = false
+			}
+		}
+		if !okRow {
 			bad = append(bad, fmt.Sprintf("%s: probes = %s, specification says %s", orderString(rank, syms), got, want))
 		}
 	}
@@ -836,10 +891,16 @@ func rulePQ(r *Run, p string) {
 					}
 					return strings.ReplaceAll(out, recv, "idx")
 				}
-				slices[w.Name(fn)] = append(slices[w.Name(fn)], norm(cc.S(sl.Low))+":"+norm(cc.S(sl.High)))
+				side := "search"
+				if recv == "P0" {
+					side = "encode"
+				}
+				slices[side] = append(slices[side], norm(cc.S(sl.Low))+":"+norm(cc.S(sl.High)))
 			})
 		}
-		collect(enc, "P0")
+		for _, fn := range sameRecvCallees(w, enc, 2) {
+			collect(fn, "P0")
+		}
 		idxField := indexFieldOf(k.SearchT, k.IndexT)
 		for _, fn := range sameRecvCallees(w, k.Single, 2) {
 			collect(fn, "P0."+idxField)
